@@ -1,5 +1,5 @@
 (* C02 — executable comparison helpers used by the L1 cases files (no proofs). *)
-From Snax Require Import Base.Prelude Base.ListAux Model.C02Stream.
+From Snax Require Import Base.Prelude Base.ListAux Model.C02Stream Model.C02GenCanon.
 
 Definition zl_eqb := list_eqb Z.eqb.
 Definition sp_eqb (a b : spattern) : bool :=
@@ -38,7 +38,8 @@ Definition chk_convert (c : list operand * res (list spattern)) : bool := res_eq
 (* final patterns when the accelerator does not customise them: canonicalize *)
 Definition chk_final (c : list operand * list spattern) : bool :=
   match conv_all (fst c) with
-  | Ok ps => list_eqb sp_eqb (map sp_canonicalize ps) (snd c)
+  | Ok ps => list_eqb (fun a b => match a, b with Some x, Some y => sp_eqb x y | _, _ => false end)
+                      (map gen_canonicalize ps) (map Some (snd c))
   | Err _ => false end.
 (* the Safe predicate against its harness mirror *)
 Definition chk_okb (c : Z * operand * bool) : bool :=
